@@ -89,7 +89,7 @@ StepVerdict(ev) ==
 \* which verdict kinds count for the property being checked
 Relevant(v) ==
   LET kind == Split(v, ":")[1]
-  IN IF kind = "harness" THEN TRUE
+  IN IF kind \in {"harness", "drift"} THEN TRUE      \* drift: MODEL-DRIFT diagnostics, reported but never a violation
      ELSE IF Pid = "C12" THEN kind \in {"panic", "fabricated", "accept", "invalid-result"}
      ELSE IF Pid = "C15" THEN kind \in {"mutated", "tables", "nondeterministic", "history"}
      ELSE TRUE
